@@ -49,7 +49,23 @@ Results, for EVERY such forest:
   `js_assigned_arrow_clause`;
 * a finding about the TypeScript definition: `ts_ternary_false_header` - the follow-up `: … {`
   (meant for return type annotations) also matches `c ? f ( x ) : { … }` and `case f ( x ) : {`,
-  so calls in conditional expressions and `case` labels are reported as functions.
+  so calls in conditional expressions and `case` labels are reported as functions;
+* F1a `headers_of_layout_syn`, `scan_of_layout_syn` - stage A (token indices, `Layout`) for C / C++ /
+  C# with the discovery hypothesis replaced by syntactic conditions on the token list;
+* negation forms `¬ ∀ …` of "the clause is needed", each with ONE clause of the fragment switched
+  off: `nocall_clause_needed`, `scan_without_canon_false`, `java_new_clause_needed`,
+  `java_throws_clause_needed`, `java_gap_clause_needed`, `c_gap_clause_needed` (C++ `f ( ) const {`
+  is not reported at all), `js_function_keyword_clause_needed`, `ts_function_keyword_clause_needed`,
+  `js_assigned_arrow_clause_needed`, `ts_gap_clause_needed`; `cpp_ctor_initializer_reports_member`.
+
+**Naming.**  The theorems of this file carry no `_partial`: their hypotheses are decidable
+conditions on the INPUT tree (`wfCore`, `noAdj`, `Canon…`, `allCode`, increasing locations), nothing
+about intermediate results of the analysis.  `noAdj` and the clauses of `Canon…` (no call-shaped
+group in a header = KF1, no false header, balanced groups, …) define the canonical fragment in the
+sense of Appendix A of the design; each is shown necessary by a kernel-checked witness (the only
+clause without one is the FILE-level `parenBal p.flat 0`: no forest was found on which it matters;
+it may be redundant).  `noAdj` inside headers needs no witness: a header contains no function node
+(`wfCore`), so the clause is vacuous there.
 -/
 namespace CL.C01full
 open CL.C01syn CL.C01tree
@@ -80,6 +96,119 @@ theorem discovery_sound_complete {L : Language} (hL : L ∈ cFamily) {p : Prog T
     (h : extractHeaders L p.flat = .ok hs) :
     (∀ hd ∈ hs, hd ∈ p.fns.map (·.hdr)) ∧ (∀ f ∈ p.fns, f.hdr ∈ hs) :=
   ⟨canon_header_sound hL hw hc h, canon_header_complete hL hw hc h⟩
+
+/-! ## F1a: stage A (`Layout`) with the header hypothesis replaced by syntactic conditions
+
+`C01.scan_of_fnLayout_partial` assumes `extractHeaders L code = .ok hs` with `hs` a permutation of
+the headers of `fns` - a statement about an intermediate result.  With `C01syn.c_header_sound` /
+`c_header_complete` it becomes a condition on the token list alone.  (The hypothesis
+`getBlocks code = .ok blocks` of stage A remains: `blocks` = the matched pairs of brace symbols; it
+is discharged for program trees by `C01tree.blocks_of_tree`.) -/
+
+theorem header_eq_of {a b : Header} (h1 : a.rng = b.rng) (h2 : a.name = b.name) : a = b := by
+  cases a; cases b; simp only at h1 h2; rw [h1, h2]
+
+/-- **Header discovery on a layout of C / C++ / C#, from syntactic conditions.**  If every function
+of `fns` has a syntactic header `Name ( … )+` as its header range, followed by the symbol `{`, named
+by its first token and without `Name (` strictly inside its parameter list (KF1), and every
+syntactic header of the token list that is followed by `{` is the header of one of the functions,
+then `extract_headers` returns a permutation of the headers of `fns`. -/
+theorem headers_of_layout_syn {L : Language} (hL : L ∈ cFamily) {code : List Tok} {fns : List Fn}
+    (hsorted : fns.Pairwise (fun f g => f.hdr.rng.s < g.hdr.rng.s))
+    (hdef : ∀ f ∈ fns, Syn.SynHeader code f.hdr.rng.s f.hdr.rng.e ∧
+      Syn.SymbolAt code f.hdr.rng.e [123] ∧ code[f.hdr.rng.s]? = some f.hdr.name ∧
+      ∀ q, f.hdr.rng.s < q → q + 2 < f.hdr.rng.e →
+        ¬ (Syn.NameAt code q ∧ Syn.OpenAt code (q + 1)))
+    (hall : ∀ p f, Syn.SynHeader code p f → Syn.SymbolAt code f [123] →
+      ∃ g ∈ fns, g.hdr.rng = ⟨p, f⟩) :
+    ∃ hs, extractHeaders L code = .ok hs ∧ hs.Perm (fns.map (·.hdr)) := by
+  obtain ⟨hs, h⟩ := c_headers_total L hL code
+  refine ⟨hs, h, ?_⟩
+  have hnd1 : hs.Nodup :=
+    List.Nodup.of_map _ (C01disc.extracted_once L (cFamily_shipped L hL) code hs h).1
+  have hnd2 : (fns.map (·.hdr)).Nodup := by
+    rw [List.Nodup, List.pairwise_map]
+    exact hsorted.imp (fun hlt heq => by rw [heq] at hlt; omega)
+  rw [List.perm_ext_iff_of_nodup hnd1 hnd2]
+  intro hd
+  constructor
+  · intro hhd
+    obtain ⟨s1, s2, s3⟩ := c_header_sound L hL code hs h hd hhd
+    obtain ⟨g, hg, hgr⟩ := hall _ _ s1 s2
+    have hgn := (hdef g hg).2.2.1
+    have hs' : g.hdr.rng.s = hd.rng.s := by rw [hgr]
+    rw [hs', s3] at hgn
+    rw [← header_eq_of hgr (Option.some.inj hgn).symm]
+    exact List.mem_map_of_mem hg
+  · intro hhd
+    obtain ⟨f, hf, rfl⟩ := List.mem_map.1 hhd
+    obtain ⟨d1, d2, d3, d4⟩ := hdef f hf
+    obtain ⟨hd, hhd', hr, hn, _⟩ := c_header_complete L hL code hs h _ _ d1 d2 d4
+    rw [d3] at hn
+    rw [← header_eq_of hr (Option.some.inj hn).symm]
+    exact hhd'
+
+/-- **Stage A for C / C++ / C# WITHOUT the discovery hypothesis** (`C01.scan_of_fnLayout_partial`
+with `hh` / `hperm` replaced by conditions on the token list).  For a lexed file whose brace blocks
+are `blocks`, functions `fns` that lie canonically relative to the blocks (`FnLayout`, no block
+directly after a function body) and whose headers are EXACTLY the syntactic headers `Name ( … )+ {`
+of the token list (each without `Name (` inside): `scan_file` reports exactly `fns` with the
+expected measurements (C++, C#), the top-level ones with all their lines (C). -/
+theorem scan_of_layout_syn {L : Language} (hL : L ∈ cFamily) {all code : List Tok} {fns : List Fn}
+    {blocks : List Range} (hcode : filterTokens false all = code)
+    (hpos : code.Pairwise (fun a b => a.line < b.line ∨ (a.line = b.line ∧ a.col < b.col)))
+    (hb : getBlocks code = .ok blocks)
+    (hF : FnLayout fns blocks) (hadj : ∀ f ∈ fns, ∀ b ∈ blocks, b.s ≠ f.body.e)
+    (hdef : ∀ f ∈ fns, Syn.SynHeader code f.hdr.rng.s f.hdr.rng.e ∧
+      Syn.SymbolAt code f.hdr.rng.e [123] ∧ code[f.hdr.rng.s]? = some f.hdr.name ∧
+      ∀ q, f.hdr.rng.s < q → q + 2 < f.hdr.rng.e →
+        ¬ (Syn.NameAt code q ∧ Syn.OpenAt code (q + 1)))
+    (hall : ∀ p f, Syn.SynHeader code p f → Syn.SymbolAt code f [123] →
+      ∃ g ∈ fns, g.hdr.rng = ⟨p, f⟩)
+    (hm : ∀ f ∈ fns, ¬ Marked all f.hdr.name.line) :
+    (L.nested = true →
+      ∃ ms, scanFile L all = .ok ms ∧ ms.map some = fns.map (expected code fns)) ∧
+    (L.nested = false →
+      ∃ ms, scanFile L all = .ok ms ∧ ms.map some = (topLevel fns).map (expectedFlat code)) := by
+  obtain ⟨hs, hh, hperm⟩ := headers_of_layout_syn hL hF.fns_sorted hdef hall
+  exact C01.scan_of_fnLayout_partial hcode (cFamily_brace L hL) hpos hh hperm hb hF hadj hm
+
+/-- **non-vacuity of `scan_of_layout_syn`**: the hand-written token list of stage A
+(`Lemmas/LayoutExamples.lean`: 72 tokens, six functions, nesting depth 3, a brace group in a
+parameter list) satisfies the syntactic conditions - decided in the kernel - and the conclusion is
+the one of `C01.scan_example_cpp` -/
+theorem layout_syn_example :
+    (∀ f ∈ C01Ex.fns, Syn.SynHeader C01Ex.code f.hdr.rng.s f.hdr.rng.e ∧
+      Syn.SymbolAt C01Ex.code f.hdr.rng.e [123] ∧ C01Ex.code[f.hdr.rng.s]? = some f.hdr.name ∧
+      ∀ q, f.hdr.rng.s < q → q + 2 < f.hdr.rng.e →
+        ¬ (Syn.NameAt C01Ex.code q ∧ Syn.OpenAt C01Ex.code (q + 1))) ∧
+    (∀ p f, Syn.SynHeader C01Ex.code p f → Syn.SymbolAt C01Ex.code f [123] →
+      ∃ g ∈ C01Ex.fns, g.hdr.rng = ⟨p, f⟩) ∧
+    ∃ ms, scanFile Gen.cpp C01Ex.all = .ok ms ∧
+      ms.map some = C01Ex.fns.map (expected C01Ex.code C01Ex.fns) := by
+  have h1 : ∀ f ∈ C01Ex.fns, Syn.SynHeader C01Ex.code f.hdr.rng.s f.hdr.rng.e ∧
+      Syn.SymbolAt C01Ex.code f.hdr.rng.e [123] ∧ C01Ex.code[f.hdr.rng.s]? = some f.hdr.name ∧
+      ∀ q, f.hdr.rng.s < q → q + 2 < f.hdr.rng.e →
+        ¬ (Syn.NameAt C01Ex.code q ∧ Syn.OpenAt C01Ex.code (q + 1)) := by
+    have hb : ∀ f ∈ C01Ex.fns, Syn.SynHeader C01Ex.code f.hdr.rng.s f.hdr.rng.e ∧
+        Syn.SymbolAt C01Ex.code f.hdr.rng.e [123] ∧ C01Ex.code[f.hdr.rng.s]? = some f.hdr.name ∧
+        f.hdr.rng.e ≤ 72 ∧
+        ∀ q, q < 72 → f.hdr.rng.s < q → q + 2 < f.hdr.rng.e →
+          ¬ (Syn.NameAt C01Ex.code q ∧ Syn.OpenAt C01Ex.code (q + 1)) := by decide +kernel
+    intro f hf
+    obtain ⟨a, b, c, d, e⟩ := hb f hf
+    exact ⟨a, b, c, fun q h1 h2 => e q (by omega) h1 h2⟩
+  have h2 : ∀ p f, Syn.SynHeader C01Ex.code p f → Syn.SymbolAt C01Ex.code f [123] →
+      ∃ g ∈ C01Ex.fns, g.hdr.rng = ⟨p, f⟩ := by
+    have hb : ∀ p, p < 72 → Syn.SynHeader C01Ex.code p (Syn.groupsEnd C01Ex.code (p + 1)) →
+        Syn.SymbolAt C01Ex.code (Syn.groupsEnd C01Ex.code (p + 1)) [123] →
+        ∃ g ∈ C01Ex.fns, g.hdr.rng = ⟨p, Syn.groupsEnd C01Ex.code (p + 1)⟩ := by decide +kernel
+    intro p f hs hb'
+    obtain ⟨⟨t, ht, _⟩, _, rfl⟩ := id hs
+    exact hb p (List.getElem?_eq_some_iff.1 ht).1 hs hb'
+  exact ⟨h1, h2, (scan_of_layout_syn (L := Gen.cpp) (by simp [cFamily]) C01Ex.code_all
+    C01Ex.layout.pos_sorted C01Ex.blocksEx C01Ex.layout.toFnLayout C01Ex.layout.no_adjacent h1 h2
+    C01Ex.unmarked).1 rfl⟩
 
 /-! ## F2: the whole of `scan_file` -/
 
@@ -514,20 +643,39 @@ def javaNewTree : Prog Tok :=
   .fn (.toks [nmT [84] 1 5, puT [40] 1 6, puT [41] 1 7] .nil) 0 [] (puT [123] 1 9) (puT [125] 1 10)
     .nil .nil
 
-/-- **The clause "a function does not follow `new` / `record`" is needed.**  `javaNewTree` is
-well-formed, balanced and has a canonical header, so its tree report lists `T`; but Java's
-`filter_headers` drops the header and `scan_file` reports nothing.  `CanonJava` rejects the tree
-(the same tokens with a brace `group` instead of the function node are accepted: an anonymous
-class). -/
-theorem java_new_clause_needed :
-    javaNewTree.wfCore = true ∧ javaNewTree.noAdj = true ∧ parenBal javaNewTree.flat 0 = true ∧
+/-- the witness for `java_new_clause_needed`, clause by clause: `javaNewTree` is structurally
+well-formed, has no function directly followed by a brace group, consists of code tokens at
+increasing locations, has balanced parentheses, and satisfies every clause of `CanonJava` EXCEPT
+"a function node does not follow `new` / `record`" (`canonWith` with the exemption switched off
+holds, `CanonJava` does not); its tree report lists `T`; Java's `filter_headers` drops the header
+and `scan_file` reports nothing.  (The same tokens with a brace `group` instead of the function
+node are accepted: an anonymous class.) -/
+theorem java_new_clause_witness :
+    javaNewTree.wfCore = true ∧ javaNewTree.noAdj = true ∧ javaNewTree.allCode = true ∧
+    PosSorted javaNewTree.flat ∧ parenBal javaNewTree.flat 0 = true ∧
+    javaNewTree.canonWith { cfgJava with exempt := fun _ => false } false = true ∧
     javaNewTree.CanonJava = false ∧
     (Prog.toks [kwT [110, 101, 119] 1 1, nmT [84] 1 5, puT [40] 1 6, puT [41] 1 7]
       (.group (puT [123] 1 9) (puT [125] 1 10) .nil .nil)).CanonJava = true ∧
     scanFile Gen.java javaNewTree.flat = .ok [] ∧
     treeReport javaNewTree = [⟨[84], 1, 5, 1, 11, 1⟩] := by
-  refine ⟨by decide, by decide, by decide, by decide, by decide,
-    scanFile_eval (by decide +kernel), by decide +kernel⟩
+  refine ⟨by decide, by decide, by decide, by unfold PosSorted; decide, by decide, by decide,
+    by decide, by decide, scanFile_eval (by decide +kernel), by decide +kernel⟩
+
+/-- **The clause "a function node does not follow `new` / `record`" is needed.**  F2 for Java with
+that clause dropped from `CanonJava` (the exemption switched off: `exempt := fun _ => false`) is
+FALSE: for `new T ( ) { }` with `T ( )` as the header of a function node the tree report lists `T`,
+but `scan_file` reports nothing. -/
+theorem java_new_clause_needed :
+    ¬ ∀ (p : Prog Tok), parenBal p.flat 0 = true →
+      p.canonWith { cfgJava with exempt := fun _ => false } false = true →
+      p.wfCore = true → p.noAdj = true → PosSorted p.flat → p.allCode = true →
+      scanFile Gen.java p.flat = .ok (treeReport p) := by
+  intro h
+  obtain ⟨h1, h2, h3, h4, h5, h6, _, _, h9, h10⟩ := java_new_clause_witness
+  have := h javaNewTree h5 h6 h1 h2 h4 h3
+  rw [h9, h10] at this
+  cases this
 
 /-- the tree of `n ( ) throws E { y ; }` with NO function node: tokens followed by a brace group -/
 def javaThrowsTree : Prog Tok :=
@@ -550,6 +698,89 @@ theorem java_throws_false_header :
         .nil)).CanonJava = true := by
   refine ⟨by decide, by decide, by decide, by decide, by decide,
     scanFile_eval (by decide +kernel), by decide⟩
+
+/-- **Java's false-header clause must cover `throws`.**  F2 for Java with the false-header test of
+the C family (`follows := startsWithGroup`: only `Name ( … )+` directly in front of a brace group)
+is FALSE: `javaThrowsTree` (`n ( ) throws E { y ; }`, no function node) passes that weaker test,
+its tree report is empty, and `scan_file` reports `n`. -/
+theorem java_throws_clause_needed :
+    ¬ ∀ (p : Prog Tok), parenBal p.flat 0 = true →
+      p.canonWith { cfgJava with follows := Prog.startsWithGroup } false = true →
+      p.wfCore = true → p.noAdj = true → PosSorted p.flat → p.allCode = true →
+      scanFile Gen.java p.flat = .ok (treeReport p) := by
+  intro h
+  have := h javaThrowsTree (by decide) (by decide) (by decide) (by decide)
+    (by unfold PosSorted; decide) (by decide)
+  rw [java_throws_false_header.2.2.2.2.2.1, java_throws_false_header.2.2.2.2.1] at this
+  cases this
+
+/-- the tree of `m ( ) throws E ; { }` with `throws E ;` as the GAP of a function node -/
+def javaGapTree : Prog Tok :=
+  .fn (.toks [nmT [109] 1 1, puT [40] 1 3, puT [41] 1 5] .nil) 0
+    [kwT [116, 104, 114, 111, 119, 115] 1 7, nmT [69] 1 14, puT [59] 1 16] (puT [123] 1 18)
+    (puT [125] 1 20) .nil .nil
+
+/-- **The clause on the gap (`gapOK`) is needed** (Java): with any gap allowed, F2 is false.  In
+`javaGapTree` the gap `throws E ;` contains a `;`, so the follow-up `throws … {` of the shipped
+pattern does not match: the tree report lists `m`, `scan_file` reports nothing.  Every other clause
+of `CanonJava` holds. -/
+theorem java_gap_clause_needed :
+    ¬ ∀ (p : Prog Tok), parenBal p.flat 0 = true →
+      p.canonWith { cfgJava with gapOK := fun _ => true } false = true →
+      p.wfCore = true → p.noAdj = true → PosSorted p.flat → p.allCode = true →
+      scanFile Gen.java p.flat = .ok (treeReport p) := by
+  intro h
+  have := h javaGapTree (by decide) (by decide) (by decide) (by decide)
+    (by unfold PosSorted; decide) (by decide)
+  have he : scanFile Gen.java javaGapTree.flat = .ok [] := scanFile_eval (by decide +kernel)
+  rw [he] at this
+  revert this
+  decide +kernel
+
+example : javaGapTree.CanonJava = false := by decide
+
+/-- the tree of `f ( ) const { }` (a C++ const member function) with `const` as the GAP of a
+function node -/
+def cppConstTree : Prog Tok :=
+  .fn (.toks [nmT [102] 1 1, puT [40] 1 3, puT [41] 1 5] .nil) 0
+    [kwT [99, 111, 110, 115, 116] 1 7] (puT [123] 1 13) (puT [125] 1 15) .nil .nil
+
+/-- **The clause "nothing between header and `{`" is needed** (C, C++, C#): with any gap allowed, F2
+is false.  In `f ( ) const { }` the header `f ( )` is not directly followed by `{`, so the
+follow-up test fails: the tree report lists `f`, `scan_file` reports NOTHING.  This is a limit of
+the real code, too: a C++ member function `int f() const { … }` (or `noexcept`, `override`) is not
+measured at all - such functions are outside the canonical fragment (`gapOK = isEmpty`). -/
+theorem c_gap_clause_needed :
+    ¬ ∀ (p : Prog Tok), parenBal p.flat 0 = true →
+      p.canonWith { cfgC with gapOK := fun _ => true } false = true →
+      p.wfCore = true → p.noAdj = true → PosSorted p.flat → p.allCode = true →
+      scanFile Gen.cpp p.flat = .ok (treeReport p) := by
+  intro h
+  have := h cppConstTree (by decide) (by decide) (by decide) (by decide)
+    (by unfold PosSorted; decide) (by decide)
+  have he : scanFile Gen.cpp cppConstTree.flat = .ok [] := scanFile_eval (by decide +kernel)
+  rw [he] at this
+  revert this
+  decide +kernel
+
+/-- the tree of `A ( ) : b ( 1 ) { x ; }` (a C++ constructor with a member initialiser list) with
+`: b ( 1 )` as the GAP of the function node `A` -/
+def cppCtorTree : Prog Tok :=
+  .fn (.toks [nmT [65] 1 1, puT [40] 1 3, puT [41] 1 5] .nil) 0
+    [opT [58] 1 7, nmT [98] 1 9, puT [40] 1 11, ⟨0, 0, [49], 1, 13⟩, puT [41] 1 15]
+    (puT [123] 1 17) (puT [125] 1 25) (.toks [nmT [120] 1 19, puT [59] 1 21] .nil) .nil
+
+/-- **Outside the fragment: a C++ constructor with a member initialiser list is reported under
+the name of the last initialised member.**  In `A ( ) : b ( 1 ) { x ; }` the header `A ( )` is not
+followed by `{`, but `b ( 1 )` is: the tree report lists `A`, `scan_file` reports the unit `b` (so
+does the real code).  The gap clause of `Canon` (`gapOK = isEmpty`) excludes the tree. -/
+theorem cpp_ctor_initializer_reports_member :
+    cppCtorTree.wfCore = true ∧ cppCtorTree.noAdj = true ∧ cppCtorTree.Canon = false ∧
+    cppCtorTree.canonWith { cfgC with gapOK := fun _ => true } false = true ∧
+    treeReport cppCtorTree = [⟨[65], 1, 1, 1, 26, 1⟩] ∧
+    scanFile Gen.cpp cppCtorTree.flat = .ok [⟨[98], 1, 9, 1, 26, 1⟩] := by
+  refine ⟨by decide, by decide, by decide, by decide, by decide +kernel,
+    scanFile_eval (by decide +kernel)⟩
 
 /-! ## JavaScript and TypeScript WITHOUT assigned arrow functions -/
 
@@ -825,5 +1056,72 @@ theorem js_assigned_arrow_clause :
     scanFile Gen.javascript jsArrowTree.flat = .ok [⟨[97], 1, 1, 1, 23, 1⟩] := by
   refine ⟨by decide, by decide, by decide, by decide, by decide, by decide,
     scanFile_eval (by decide +kernel)⟩
+
+/-- **The clause "`function` does not stand in front of a function node" (`joins`) is needed.**
+F2 for JavaScript with that clause dropped (`joins := fun _ => false`) is FALSE: `jsJoinTree`
+satisfies every other clause, but the reported unit starts at the keyword `function` (column 1)
+while the tree report (header `f ( )` only) starts at column 10. -/
+theorem js_function_keyword_clause_needed :
+    ¬ ∀ (p : Prog Tok), parenBal p.flat 0 = true →
+      p.canonWith { cfgJs with joins := fun _ => false } false = true →
+      noAssignedArrow p.flat = true →
+      p.wfCore = true → p.noAdj = true → PosSorted p.flat → p.allCode = true →
+      scanFile Gen.javascript p.flat = .ok (treeReport p) := by
+  intro h
+  have := h jsJoinTree (by decide) (by decide) (by decide) (by decide) (by decide)
+    (by unfold PosSorted; decide) (by decide)
+  rw [js_function_keyword_clause.2.2.2.2.1, js_function_keyword_clause.2.2.2.1] at this
+  revert this
+  decide
+
+/-- the same for TypeScript (`cfgTs` has the same `joins`) -/
+theorem ts_function_keyword_clause_needed :
+    ¬ ∀ (p : Prog Tok), parenBal p.flat 0 = true →
+      p.canonWith { cfgTs with joins := fun _ => false } false = true →
+      noAssignedArrow p.flat = true →
+      p.wfCore = true → p.noAdj = true → PosSorted p.flat → p.allCode = true →
+      scanFile Gen.typescript p.flat = .ok (treeReport p) := by
+  intro h
+  have := h jsJoinTree (by decide) (by decide) (by decide) (by decide) (by decide)
+    (by unfold PosSorted; decide) (by decide)
+  have he : scanFile Gen.typescript jsJoinTree.flat = .ok [⟨[102], 1, 1, 1, 19, 1⟩] :=
+    scanFile_eval (by decide +kernel)
+  rw [he, js_function_keyword_clause.2.2.2.1] at this
+  revert this
+  decide
+
+/-- **The restriction `noAssignedArrow` is needed** (negation form of `js_assigned_arrow_clause`):
+F2 for JavaScript without it is FALSE. -/
+theorem js_assigned_arrow_clause_needed :
+    ¬ ∀ (p : Prog Tok), parenBal p.flat 0 = true → p.canonWith cfgJs false = true →
+      p.wfCore = true → p.noAdj = true → PosSorted p.flat → p.allCode = true →
+      scanFile Gen.javascript p.flat = .ok (treeReport p) := by
+  intro h
+  obtain ⟨h1, h2, h3, h4, _, h6, h7⟩ := js_assigned_arrow_clause
+  have := h jsArrowTree h3 h4 h1 h2 (by unfold PosSorted; decide) (by decide)
+  rw [h7, h6] at this
+  cases this
+
+/-- the tree of `f ( ) : T ; { }` with `: T ;` as the GAP of a function node (TypeScript) -/
+def tsGapTree : Prog Tok :=
+  .fn (.toks [nmT [102] 1 1, puT [40] 1 3, puT [41] 1 5] .nil) 0
+    [opT [58] 1 7, nmT [84] 1 9, puT [59] 1 11] (puT [123] 1 13) (puT [125] 1 15) .nil .nil
+
+/-- **The clause on the gap (`gapOK`) is needed** (TypeScript): with any gap allowed, F2 is false:
+the gap `: T ;` of `tsGapTree` contains a `;`, the follow-up `: … {` does not match, the tree
+report lists `f`, `scan_file` reports nothing. -/
+theorem ts_gap_clause_needed :
+    ¬ ∀ (p : Prog Tok), parenBal p.flat 0 = true →
+      p.canonWith { cfgTs with gapOK := fun _ => true } false = true →
+      noAssignedArrow p.flat = true →
+      p.wfCore = true → p.noAdj = true → PosSorted p.flat → p.allCode = true →
+      scanFile Gen.typescript p.flat = .ok (treeReport p) := by
+  intro h
+  have := h tsGapTree (by decide) (by decide) (by decide) (by decide) (by decide)
+    (by unfold PosSorted; decide) (by decide)
+  have he : scanFile Gen.typescript tsGapTree.flat = .ok [] := scanFile_eval (by decide +kernel)
+  rw [he] at this
+  revert this
+  decide +kernel
 
 end CL.C01full
